@@ -51,7 +51,7 @@ def gen_cases(ctx, return_logprobs=False, n_cases=None):
     rng = rng_for(ctx, 2 if not return_logprobs else 6)
     n_cases = n_cases or (110 if ctx.tier == "quick" else 1200)
     cases = []
-    kinds = ["flat", "spike", "ties", "ninf", "wide", "narrow"]
+    kinds = ["flat", "spike", "ties", "ninf", "wide", "narrow", "deep", "high"]
     for k in range(n_cases):
         n = int(rng.choice([1, 2, 3, 5, 8, 17, 40, 90, 200, 400], p=[.05, .08, .08, .1, .15, .2, .15, .1, .06, .03]))
         path = ["inmem", "file_obj", "file_name"][int(rng.integers(0, 3))]
